@@ -71,7 +71,7 @@ def mutate_hist(rng, line, n):
     return out
 
 
-def run_pipe_property(chk, me, streams, n_mut, matchers=None, oracle=None):
+def run_pipe_property(chk, me, streams, n_mut, matchers=None, oracle=None, extra=None):
     matchers = matchers or {}
     std_prepare(chk)
     run_streams(chk, me, streams, matchers)
@@ -83,4 +83,6 @@ def run_pipe_property(chk, me, streams, n_mut, matchers=None, oracle=None):
         muts.extend(mutate_hist(rng, a, 10))
     bad = run_scope_b(chk, me, muts[:nm], 'mutants', matchers, timeout=60.0)
     resolve_scope_b(chk, me, bad, 'mutants', matchers, oracle, streams)
+    if extra:
+        extra(chk)
     return chk.finish(me)
